@@ -248,12 +248,16 @@ def judge(doc, text, L, items, exc):
             if tuple(doc.lpaths[b[2][0]])[:len(par)] != par:
                 endsparent = True
     sit = 'trees=%s%s%s' % (min(ntree, 3), ' back-to-back' if b2b else '', ' ends-parent' if endsparent else '')
-    # a walker that matched a different node than the grammar is a C02 matter: the loop oracle needs agreement
+    # every segment is handed over on the map node the grammar places it at (only conformant, unambiguous documents are used:
+    # the reference parse reproduces the generating nodes).  Until round 10 a disagreement here was set aside as 'a C02 matter';
+    # it never occurs on the unchanged tree, and a segment delivered on a stale node is in no tree it belongs to
     k = 0
     for it in items:
         for r in it[3]:
             if r.path is not None and re.sub(r'\[[^\]/]*\]$', '', r.path) != doc.nodes[k].path:
-                return v, sit, 'walker matched another node than the grammar (C02 domain)'
+                v.append(('C09|%s|node|segment handed over on another map node than the one it belongs to' % lc,
+                          'iter_segments(%r): segment %d %r came with map node %s, the grammar places it at %s' % (L, k + 1, doc.flat()[k], r.path, doc.nodes[k].path)))
+                return v, sit, None
             k += 1
     # partition
     obs_shape = []
@@ -624,7 +628,6 @@ def run(R):
     R.assumptions = ['structural validity is decided by the independent grammar: only documents whose reference parse (gen.selfcheck) reproduces the generating nodes are used; others are counted',
                      'layout is one segment per line with ~ * : delimiters (delimiter and layout independence is C12)',
                      'seg_count of ISA/GS/GE/IEA is not compared (outside any set); for SE both its true position and the suite-pinned reader convention (count of the last body segment) are accepted',
-                     'when the walker matched a different map node than the grammar (a C02 matter) only the flatten, line and position oracles are applied',
                      'wrapper loops that begin with a loop (e.g. DETAIL) must appear in the chain as the map path has them, but no instance identity is demanded of them',
                      'plain segment nodes are compared by content, position and line only (their parent attribute is a C10 matter)']
     return R.finish(LEVEL, 'one execution = one (document, loop id) read completely by iter_segments; distinct = (loop class, placement or corpus plan kind, expected tree situation)', exhaustive=True)
